@@ -1,21 +1,210 @@
 package eng
 
+import (
+	"fmt"
+	"go/token"
+	"go/types"
+	"sort"
+	"strings"
+
+	"golang.org/x/tools/go/ssa"
+)
+
 var rootPkg = []string{modPath}
 
-// plans lists the properties for which a check is built.
 func modeScan(id string) func(s *Session, tier string) []*FuncResult {
 	return func(s *Session, tier string) []*FuncResult { return []*FuncResult{s.ScanFieldModes(id)} }
 }
 
+func combine(fs ...func(s *Session, tier string) []*FuncResult) func(s *Session, tier string) []*FuncResult {
+	return func(s *Session, tier string) []*FuncResult {
+		var out []*FuncResult
+		for _, f := range fs {
+			out = append(out, f(s, tier)...)
+		}
+		return out
+	}
+}
+
+// lockOrder: the static lock-order graph collected during symbolic execution must be acyclic.
+func lockOrder(id string) func(s *Session, tier string) []*FuncResult {
+	return func(s *Session, tier string) []*FuncResult {
+		res := &FuncResult{Name: "lock-order", HasContract: true}
+		adj := map[string][]string{}
+		for e := range s.W.lockEdges {
+			p := strings.Split(e, " -> ")
+			adj[p[0]] = append(adj[p[0]], p[1])
+		}
+		var cycle []string
+		state := map[string]int{}
+		var dfs func(n string, path []string) bool
+		dfs = func(n string, path []string) bool {
+			state[n] = 1
+			for _, m := range adj[n] {
+				if state[m] == 1 {
+					cycle = append(append([]string{}, path...), n, m)
+					return true
+				}
+				if state[m] == 0 && dfs(m, append(path, n)) {
+					return true
+				}
+			}
+			state[n] = 2
+			return false
+		}
+		var nodes []string
+		for n := range adj {
+			nodes = append(nodes, n)
+		}
+		sort.Strings(nodes)
+		ok := true
+		for _, n := range nodes {
+			if state[n] == 0 && dfs(n, nil) {
+				ok = false
+				break
+			}
+		}
+		var edges []string
+		for e, w := range s.W.lockEdges {
+			edges = append(edges, e+" ("+w+")")
+		}
+		sort.Strings(edges)
+		detail := fmt.Sprintf("%d edges: %s", len(edges), strings.Join(edges, "; "))
+		if !ok {
+			detail = "cycle " + strings.Join(cycle, " -> ") + "; " + detail
+		}
+		res.Obligs = append(res.Obligs, &Oblig{Name: "lock-order/acyclic", Kind: "lockorder", Func: "lock-order", Structural: true, StructOK: ok, Detail: detail, Props: []string{id}})
+		return []*FuncResult{res}
+	}
+}
+
+// sweepModes runs every function of the loaded packages that is not under contract through the
+// symbolic executor with an empty contract, keeping only the ownership-mode and lock obligations.
+func sweepModes(id string) func(s *Session, tier string) []*FuncResult {
+	return func(s *Session, tier string) []*FuncResult {
+		var out []*FuncResult
+		skipped := 0
+		for _, fn := range s.P.AllFns {
+			name := s.P.ShortName(fn)
+			if fc := s.W.ContractFor(fn); fc != nil {
+				continue
+			}
+			if len(fn.Blocks) == 0 || fn.Name() == "init" || strings.HasPrefix(name, "init$") || fn.Synthetic != "" {
+				continue
+			}
+			if strings.HasSuffix(s.P.Fset.Position(fn.Pos()).Filename, ".pb.go") || strings.Contains(s.P.Fset.Position(fn.Pos()).Filename, "testing_gorums") {
+				continue
+			}
+			x := NewExec(s.W, fn, &FuncContract{Name: name, Mode: "concurrent", Opts: map[string]string{}, Props: []string{id}}, name)
+			x.maxPaths = 600
+			r := x.VerifyFunction()
+			r.HasContract = false
+			if r.Err != "" {
+				skipped++
+				r.Notes = append(r.Notes, "sweep: not analysed ("+strings.SplitN(r.Err, "\n", 2)[0]+")")
+				r.Err = ""
+				r.Obligs = nil
+			}
+			var keep []*Oblig
+			for _, o := range r.Obligs {
+				if o.Kind == "mode" || o.Kind == "lockorder" || o.Kind == "lockset" {
+					if len(o.Props) == 0 {
+						o.Props = []string{id}
+					}
+					keep = append(keep, o)
+				}
+			}
+			r.Obligs = keep
+			out = append(out, r)
+		}
+		return out
+	}
+}
+
+// reconnectWakeup (C10.b, structural): every timer wait of reconnect must sit in a select that
+// also has a case signalled when the stream is re-established by someone else - i.e. a receive
+// case other than the timer and the parent context's Done channel.
+func reconnectWakeup(s *Session, tier string) []*FuncResult {
+	res := &FuncResult{Name: "reconnect-wakeup", HasContract: true}
+	fn := s.P.Lookup("(*channel).reconnect")
+	if fn == nil {
+		res.Err = "contract drift: (*channel).reconnect not found"
+		return []*FuncResult{res}
+	}
+	ok, found := true, false
+	var pos token.Pos
+	for _, b := range fn.Blocks {
+		for _, in := range b.Instrs {
+			sel, isSel := in.(*ssa.Select)
+			if !isSel || !sel.Blocking {
+				continue
+			}
+			timer, other := false, 0
+			for _, st := range sel.States {
+				if st.Dir != types.RecvOnly {
+					continue
+				}
+				if c, isCall := st.Chan.(*ssa.Call); isCall {
+					if f := c.Call.StaticCallee(); f != nil && f.String() == "time.After" {
+						timer = true
+						continue
+					}
+					if c.Call.IsInvoke() && c.Call.Method.Name() == "Done" {
+						continue
+					}
+				}
+				other++
+			}
+			if timer {
+				found = true
+				pos = sel.Pos()
+				if other == 0 {
+					ok = false
+				}
+			}
+		}
+	}
+	if !found {
+		ok = true
+	}
+	res.Obligs = append(res.Obligs, &Oblig{Name: "(*channel).reconnect/wakeup[timer-wait has a stream-up case]", Kind: "effect", Func: "(*channel).reconnect",
+		Pos: pos, PosStr: s.P.PosStr(pos), Structural: true, StructOK: ok, Props: []string{"C10"},
+		Detail: "the back-off select waits on time.After and parentCtx.Done() only: a stream re-established by the sender's reconnect(1) does not wake the receiver"})
+	return []*FuncResult{res}
+}
+
+// plans lists the properties for which a check is built.
 var plans = map[string]*propertyPlan{
 	"C01": {ID: "C01", Level: "proof", Pkgs: rootPkg,
 		Explain: "Reply loops of QuorumCall and handleAsyncCall verified against a ghost history of received answers (seen/failed/okmsg, counters): every quorum-function call site is checked for its arguments, the reply set and the once-per-successful-reply / never-after-quorum discipline; success returns exactly the function's last value."},
 	"C02": {ID: "C02", Level: "proof", Pkgs: rootPkg, Extra: modeScan("C02"),
 		Explain: "Every return of the reply loops is classified (quorum / Incomplete / context) by postconditions over the ghost history; the progress obligation at each blocking select (an answer is still owed) covers the zero-target case; the future is written exactly once before its single close; QuorumCallError.Is is specified completely."},
+	"C03": {ID: "C03", Level: "other", Pkgs: rootPkg,
+		Explain: "Program-order part of per-node FIFO: every call function hands its requests to enqueue itself (never from a goroutine) and before it starts its handler goroutine or returns; enqueue registers before it queues and queues exactly the request it was given; newChannel starts exactly one sender and newNodeStream at most one receiver; the sender passes each dequeued request to sendMsg at most once, sendMsg calls SendMsg at most once and synchronously; the server loop starts at most one handler per received message and receives the next message only after the hand-over mutex came back. That Go channels and one gRPC stream are FIFO, and that these facts compose under every schedule, is trusted."},
+	"C04": {ID: "C04", Level: "proof", Pkgs: rootPkg,
+		Explain: "NodeStream's hand-over protocol proved with ghost counters and a lock token: the loop holds the per-stream mutex at every RecvMsg and at every handler start, hands it to exactly the handler it starts (fresh Once, pointer to this stream's mutex, this stream's context) and re-acquires it before the next receive; Release unlocks only through its Once. Relative to sync.Mutex/sync.Once contracts."},
+	"C05": {ID: "C05", Level: "proof", Pkgs: rootPkg, Extra: modeScan("C05"),
+		Explain: "Router monitor (responseMut) with send credits: enqueue registers exactly the caller's channel under the request's message id before queuing; routeResponse sends only on the channel registered under the id, at most once, deletes a non-streaming entry in the same critical section and leaves every other entry untouched (frame over the whole map); unknown ids are dropped; every response constructed by the channel carries its node's id; reply channels are fresh per call; the message-id counter is only touched atomically."},
+	"C06": {ID: "C06", Level: "proof", Pkgs: rootPkg,
+		Explain: "Send loops of all call types: per node exactly one enqueue on that node's channel with the caller's request, or with exactly the per-node function's result for (request, node id); skipped nodes are neither enqueued nor counted; Unicast/Multicast wait for exactly as many send confirmations as they queued and for none with no-send-waiting; sendMsg routes the confirmation exactly once on every path, from the sender."},
+	"C07": {ID: "C07", Level: "other", Pkgs: rootPkg,
+		Explain: "Sender: per dequeued request exactly one of {handed to sendMsg successfully, one error routed}, every error stamped with the node's id; receiver: on a stream error cancelPendingMsgs runs before anything that can block; cancelPendingMsgs answers every pending router once with the Unavailable stream-down error and removes it; reply loops record one nodeError per failed answer; WrapMessage maps handler errors to their status (Unknown + text for non-status errors). The kind of raw gRPC send errors is not decided."},
+	"C08": {ID: "C08", Level: "other", Pkgs: rootPkg,
+		Explain: "Blocking-effect contracts: every blocking point on a call's own path (RPCCall, QuorumCall, AsyncCall and its handler, CorrectableCall and its handler, Unicast, Multicast, enqueue, sendMsg and its watcher) is a select containing the call's own context, a credited (non-blocking) send, a short-hold lock, or an external stream call trusted to return on cancellation. RPCCall returns the context's own error. Structural condition only: no wall-clock bound is claimed."},
+	"C09": {ID: "C09", Level: "other", Pkgs: rootPkg, Extra: lockOrder("C09"),
+		Explain: "Local no-wedge disciplines: every send on a router channel is credited (cannot block) for non-streaming routers; no blocking operation while holding responseMut, mu, RawManager.mu or (beyond SendMsg/NodeStream) streamMut; the lock-order graph is acyclic; reply channels have capacity for every registration. No global liveness claim."},
+	"C10": {ID: "C10", Level: "other", Pkgs: rootPkg, Extra: reconnectWakeup,
+		Explain: "Every NodeStream call site derives its context from the channel's parent context, which newContext builds from the general metadata joined with the per-node metadata of exactly this node; the sender tries to connect before judging a request; newNodeStream starts the receiver at most once; the server's connect callback runs exactly once per connection before the first receive. Clause b (no back-off wait) only as a structural wake-up condition."},
 	"C11": {ID: "C11", Level: "proof", Pkgs: rootPkg, Extra: modeScan("C11"),
 		Explain: "Correctable is verified as a monitor (invariant over level, done, the watcher slots and the closed-ness of their channels, re-established at every unlock); set's two loops carry quantified invariants (no double close, every watcher at or below the level released); the handler loop is proved to publish exactly the quorum function's level and value whenever the level rises, before it blocks again, to complete exactly once under the three stated conditions and never to lower a level."},
+	"C12": {ID: "C12", Level: "other", Pkgs: rootPkg,
+		Explain: "Close visits every pooled node (closeNodeConns over a snapshot), cancels before closing the connection and cannot panic for any option; sender, receiver and reconnect block only on points guarded by the channel's parent context (or external stream calls on contexts derived from it); enqueue after Close answers the request instead of queuing when only the closed branch is enabled, and never panics; one-way calls are released by their own context."},
 	"C13": {ID: "C13", Level: "proof", Pkgs: rootPkg,
-		Explain: "The decoder is proved panic-free for an unconstrained byte slice (every type assertion, slice expression, nil dereference and interface call on its paths), relative to trusted protobuf contracts; it is proved to create the message of the method's input type for requests and output type for responses, to look the method up exactly once under the decoded name, and to reject unknown message kinds."},
+		Explain: "The decoder is proved panic-free for an unconstrained byte slice (every type assertion, slice expression, nil dereference and interface call on its paths), relative to trusted protobuf contracts; it is proved to create the message of the method's input type for requests and output type for responses, to look the method up exactly once under the decoded name, and to reject unknown message kinds; abstract-bytes round trip."},
+	"C15": {ID: "C15", Level: "other", Pkgs: rootPkg, Extra: combine(modeScan("C15"), sweepModes("C15")),
+		Explain: "Ownership discipline: every mutable field of channel, RawManager, Correctable, Async (and the atomic flags) has a declared mode - guarded_by(lock), atomic, immutable after publication, or single writer - and every access in every function of the package is checked against it with the lockset tracked through the symbolic execution (objects not yet published are exempt). If every access respects its mode no two conflicting accesses are unordered. Silent on gRPC/protobuf internals."},
+	"C18": {ID: "C18", Level: "proof", Pkgs: rootPkg,
+		Explain: "No residue: a non-streaming router is deleted in the critical section that answers it (routeResponse, cancelPendingMsgs - which leaves no router at all); enqueue registers nothing for a nil reply channel; sendMsg's confirmation removes the one-way router on every path; sendMsg closes its watcher's done channel exactly once on every path after starting it; the handler goroutines of async and correctable calls leave their loop exactly under the completion conditions and close/complete exactly once."},
 	"C19": {ID: "C19", Level: "proof", Pkgs: rootPkg,
 		Explain: "Less is proved equal to the lexicographic combination of its keys (loop invariant over a recursive spec function); each provided key's real code is inlined into four strict-weak-order lemmas; Sort/Swap/Len contracts tie sort.Sort's trusted contract to the node slice."},
 }
